@@ -293,7 +293,7 @@ impl Workload for SchedWorkload {
     }
     fn assumptions(&self) -> Vec<String> {
         vec![
-            "schedules are those of the simulated work-stealing core (rayon-core stub) with switch points at deque operations, latches and the verif-hooks sites; dashmap internals and code between two hook sites run atomically".into(),
+            "schedules are those of the simulated work-stealing core (rayon-core stub) with switch points at deque operations, latches, task starts, between the items of par_bridge, before every dashmap operation and at the verif-hooks sites; dashmap internals and code between two such points run atomically".into(),
             "release profile (overflow checks off) as shipped".into(),
             "the simulated core count stands for the machine; num_cpus::get() (used only for a warning) is the real one".into(),
         ]
@@ -409,6 +409,15 @@ impl Workload for SchedWorkload {
                 r.name = "ref".into();
                 if rng.chance(30) {
                     crate::gen::vary_paths(&mut rng, &mut all);
+                }
+                if n >= 3 && rng.chance(10) {
+                    // two samples of the same name (the same file name in two directories)
+                    let i = rng.below(n);
+                    let j = (i + 1 + rng.below(n - 1)) % n;
+                    for (x, d) in [(i, "run1"), (j, "run2")] {
+                        all[x].name = "isolate".into();
+                        all[x].path = Some(format!("{d}/isolate.fa"));
+                    }
                 }
                 let cmd = match kind {
                     "align-skf" => SchedCmd::AlignSkf(AlignOpts::random(&mut rng)),
